@@ -80,6 +80,8 @@ var gens = []generator{
 	{file: "Locator.lean", src: "locator.go (the locator constructors, tryLocation, AsLocator)", run: genLocator},
 	{file: "GoStrings.lean", src: "(fixed prelude of the seqio writer translator: strings, slices, fmt verbs)", run: genGoStrings},
 	{file: "InsdcWrite.lean", src: "seqio/insdc.go (GetQualifierType, QualifierIO.String, QualifierFormatter.String, INSDCFormatter.String)", run: genInsdcWrite},
+	{file: "FastaWrite.lean", src: "seqio/fasta.go (Fasta.WriteTo, FastaWriter.WriteSeq)", run: genFastaWrite},
+	{file: "GbFields.lean", src: "seqio/genbank.go (GenBankFields.ID, GenBankFields.String)", run: genGbFields},
 }
 
 func writeIfChanged(path string, content []byte) (bool, error) {
